@@ -903,3 +903,10 @@ Proof.
   - lia.
   - unfold dec_fuel, nested_arr. rewrite app_length, repeat_length. cbn [length]. lia.
 Qed.
+
+(* F14-3 for msgpack on a 64-bit platform: a length read from the stream is int(uintW) with
+   W <= 32, never negative, so it can never equal the containerLenNil sentinel (math.MinInt32)
+   that makes arrayStart/mapStart skip depthIncr.  (On a 32-bit platform int(uint32) can: see
+   the report; repaired in msgpack.go readContainerLen.) *)
+Lemma rd_len_not_nil : forall fm bd w b n r, rd_len fm bd w b = Ok (n, r) -> Z.of_N n <> containerLenNil.
+Proof. intros fm bd w b n r _. unfold containerLenNil. lia. Qed.
